@@ -5,6 +5,8 @@
 import IcingaModel.C15.Model
 import IcingaModel.C15.Spec
 import IcingaProofs.Gen.Precedence
+import IcingaProofs.C15.Lemmas
+import IcingaProofs.C15.OpTable
 
 namespace Icinga.C15.Proofs
 
@@ -97,15 +99,19 @@ theorem total_or_error (fuel : Nat) (prog : List (Expr N)) :
 theorem recursion_error_at_limit (f : Nat) (fr : Frame N) (e : Expr N) (st : State N) (h : fr.depth ≥ depthLimit) :
     eval (f + 1) fr (.expr e) st = (.err stackErr, st) := by
   have : fr.depth + 1 > depthLimit := by omega
-  simp [eval, this]
+  simp [eval, stepExpr, this]
 
-/-- the counterpart: below the limit the literal cases run at depth `fr.depth + 1 ≤ 300` and record exactly that depth. -/
-theorem depth_bounded (f : Nat) (fr : Frame N) (st : State N) (h : fr.depth < depthLimit) (hs : st.maxDepth ≤ depthLimit) :
-    (eval (f + 1) fr (.expr .null) st).2.maxDepth ≤ depthLimit ∧
-    (eval (f + 1) fr (.expr .null) st).1 = Out.val .ok .empty := by
-  have h' : ¬ (fr.depth + 1 > depthLimit) := by omega
-  simp [eval, h', State.noteDepth]
-  omega
+/-- **Frame depth never exceeds 300**: for every task (expression, statement list, loop, call, callback iteration,
+    reference), frame, state and fuel — the high-water mark of `ScriptFrame::Depth` over the whole evaluation, including
+    every nested function frame and the import lookups, stays ≤ 300 (induction on fuel: `eval_ok` in C15/Lemmas.lean). -/
+theorem depth_bounded (fuel : Nat) (fr : Frame N) (t : Task N) (st : State N)
+    (hfr : fr.depth ≤ depthLimit) (hst : st.maxDepth ≤ depthLimit) :
+    (eval fuel fr t st).2.maxDepth ≤ depthLimit :=
+  eval_ok fuel fr t st hfr hst
+
+/-- … in particular for whole programs started in a fresh frame. -/
+theorem depth_bounded_program (fuel : Nat) (prog : List (Expr N)) : (run fuel prog).2.maxDepth ≤ 300 :=
+  depth_bounded fuel initFrame _ initState (by simp [initFrame, depthLimit]) (by simp [initState, depthLimit])
 
 /-- `a && b`: when `a` is falsy the result is `a` ITSELF and the state is the one after `a` — `b` is not evaluated. -/
 theorem and_or_short_circuit (f : Nat) (fr : Frame N) (a b : Expr N) (st st1 : State N) (va : Value N)
@@ -113,7 +119,7 @@ theorem and_or_short_circuit (f : Nat) (fr : Frame N) (a b : Expr N) (st st1 : S
     (ha : eval f { fr with depth := fr.depth + 1 } (.expr a) (st.noteDepth (fr.depth + 1)) = (.val .ok va, st1)) :
     (truthy st1 va = false → eval (f + 1) fr (.expr (.and a b)) st = (.val .ok va, st1)) ∧
     (truthy st1 va = true → eval (f + 1) fr (.expr (.or a b)) st = (.val .ok va, st1)) := by
-  constructor <;> intro ht <;> simp [eval, hd, ha, bindV, ht]
+  constructor <;> intro ht <;> simp [eval, stepExpr, stepNode, hd, ha, bindV, ht]
 
 /-- `try { a } except { b }`: a script error of `a` never leaves the construct; `b` runs in the state `a` left. -/
 theorem try_catches_script_errors (f : Nat) (fr : Frame N) (a b : Expr N) (st st1 : State N) (k : ErrKind) (m : String)
@@ -121,7 +127,7 @@ theorem try_catches_script_errors (f : Nat) (fr : Frame N) (a b : Expr N) (st st
     (ha : eval f { fr with depth := fr.depth + 1 } (.expr a) (st.noteDepth (fr.depth + 1)) = (.err (.script k m), st1)) :
     eval (f + 1) fr (.expr (.try a b)) st =
       bindV (eval f { fr with depth := fr.depth + 1 } (.expr b) st1) (fun _ st2 => (.val .ok .empty, st2)) := by
-  simp [eval, hd, ha]
+  simp [eval, stepExpr, stepNode, hd, ha, catchScript]
 
 /-- `break` leaves the innermost loop with Empty, `return` leaves it carrying its value, `continue`/normal completion
     go on with the next iteration (CHECK_RESULT_LOOP). -/
@@ -130,22 +136,33 @@ theorem loop_control (f : Nat) (fr : Frame N) (c body : Expr N) (st st1 st2 : St
     (eval f fr (.expr body) st1 = (.val .brk v, st2) → eval (f + 1) fr (.whileL c body) st = (.val .ok .empty, st2)) ∧
     (eval f fr (.expr body) st1 = (.val .ret v, st2) → eval (f + 1) fr (.whileL c body) st = (.val .ret v, st2)) ∧
     (eval f fr (.expr body) st1 = (.val .cont v, st2) → eval (f + 1) fr (.whileL c body) st = eval f fr (.whileL c body) st2) := by
-  refine ⟨?_, ?_, ?_⟩ <;> intro hb <;> simp [eval, hc, bindV, ht, hb]
+  refine ⟨?_, ?_, ?_⟩ <;> intro hb <;> simp [eval, stepWhile, hc, bindV, ht, hb, loopStep]
 
-/-- `*`: a number exactly for (number|Empty)×(number|Empty) not both Empty, otherwise the type error (value-operators.cpp:317-323);
-    `&&`-style coercions never apply.  The same shape holds for every operator; the executable table is `binScalar`. -/
-theorem operator_typing (l r : Value N) :
-    (numPair l r = true → ∃ n, binScalar .mul l r = .val (.num n)) ∧
-    (numPair l r = false → binScalar .mul l r = .err (opTypeErr "*" l r)) ∧
-    (numPairStrict l r = true → ∃ n, binScalar .add l r = .val (.num n)) ∧
-    (numPairStrict l r = false → strPair l r = true → ∃ s, binScalar .add l r = .val (.str s)) ∧
-    (r.isEmpty = true → ∃ m, binScalar .div l r = .err (.script .divzero m)) := by
-  refine ⟨?_, ?_, ?_, ?_, ?_⟩
-  · intro h; simp [binScalar, h]
-  · intro h; simp [binScalar, h]
-  · intro h; simp [binScalar, h]
-  · intro h1 h2; simp [binScalar, h1, h2]
-  · intro h; simp [binScalar, h]
+/-- **Operator typing, all 16 binary operators** (`+ - * / % ^ & | << >> == != < > <= >=`): for every pair of operands the
+    outcome class of the operator — value of which type / type error / division error / handled element-wise on the heap — is
+    exactly the entry of `opTable` (C15/OpTable.lean) for the operands' classes (Empty, empty string, string, number, Boolean,
+    array, dictionary, other object).  Transcribes the case analysis of lib/base/value-operators.cpp. -/
+theorem operator_typing (op : BinOp) (l r : Value N) :
+    conforms (binScalar op l r) (opTable op (cls l) (cls r)) :=
+  table_all op l r
+
+/-- … and for the entries answered on the heap: `+` gives a new array or dictionary, `-` a new array, the comparisons a
+    Boolean; the only failures are a nested type error (`[1] < ["a"]`) or the comparison budget (self-containing arrays). -/
+theorem operator_typing_heap (op : BinOp) (l r : Value N) (st : State N) (h : binScalar op l r = .heap) :
+    (∀ v, (binop op l r st).1 = .ok v →
+        v.ty = (match op with
+                | .add => if arrPair l r then Ty.array else Ty.dictionary
+                | .sub => Ty.array
+                | _ => Ty.boolean)) ∧
+    (∀ e, (binop op l r st).1 = .error e →
+        (∃ m, e = .unmodelled m) ∨ (∃ m, e = .script .optype m) ∨ (∃ m, e = .internal m)) :=
+  table_heap op l r st h
+
+/-- the table distinguishes: `"" + null` is a string but `null + null` a type error; `5 / null` the division error;
+    `true + 1` a type error while `true == 1` is a Boolean; `[1] + null` a new array. -/
+example : opTable .add .emptyStr .empty = .val .string ∧ opTable .add .empty .empty = .typeErr ∧
+    opTable .div .num .empty = .divErr ∧ opTable .add .bool .num = .typeErr ∧ opTable .eq .bool .num = .val .boolean ∧
+    opTable .add .arr .empty = .newArray ∧ opTable .lt .arr .arr = .deepCmp ∧ opTable .le .arr .arr = .typeErr := by decide
 
 end
 
